@@ -385,8 +385,9 @@ def run_playback(spec, ov, hfile, body, tdir, env):
         except subprocess.TimeoutExpired:
             logs.append('playback timed out (%s)' % (prof or 'dev'))
             continue
-        logs.append(r.stdout[-3000:])
-        if re.search(r'test result: FAILED', r.stdout) and any(re.search(r'%s .*(FAILED|failed)' % n, r.stdout) or n in r.stdout for n in names):
+        logs.append(r.stdout[-60000:])
+        # reproduced iff one of the generated playback tests itself is reported FAILED (doctest noise is ignored)
+        if any(re.search(r'^test \S*%s \.\.\. FAILED' % re.escape(n), r.stdout, re.M) for n in names):
             reproduced = True
     return reproduced, '\n'.join(logs)
 
@@ -434,7 +435,7 @@ def run(pid, spec, a, seed, tmp, t_start):
                 hfile = hf
         env = dict(ENV)
         ok, log = run_playback(spec, ov, hfile, body, os.path.join(V, '.cache', 'kt', pid + '-replay'), env)
-        say(log[-3000:])
+        say('\n'.join(l[:300] for l in log.splitlines() if re.match(r'^(error|warning: unused|test |thread|running|\s+-->|\s+\|)', l))[-4000:])
         say('REPRODUCED' if ok else 'NOT REPRODUCED')
         return 1 if ok else 0
     meta, log, cg_s = codegen(pid, spec, ov)
